@@ -150,7 +150,7 @@ def same(a, b):
         va, vb = a[1], b[1]
         if callable(va) or callable(vb):
             return False
-        return va == vb or json.dumps(va, default=sorted, sort_keys=True) == json.dumps(vb, default=sorted, sort_keys=True)
+        return va == vb
     return True
 
 
@@ -192,7 +192,11 @@ def main():
         shutil.rmtree(tmpbase, ignore_errors=True)
     model.close()
     print(json.dumps(dict(stats=dict(st), dist=dict(dist), violations=violations, k2_broken=k2_broken, known_hits={},
-                          samples=samples, distinct_nontrivial=len(distinct), wall=time.time() - t0), ensure_ascii=False, default=repr))
+                          samples=samples, distinct_nontrivial=len(distinct), wall=time.time() - t0,
+                          rule='random sequences of 3-40 save/load operations over 1-3 contexts sharing one real temporary directory; ids drawn from an '
+                               'adversarial alphabet (dots, glob metacharacters, extensions, prefixes/extensions of earlier ids); values JSON-able, '
+                               'pickle-only or unserialisable; non-trivial = at least 5 operations; distinct = distinct operation sequences'),
+                     ensure_ascii=False, default=repr))
 
 
 if __name__ == '__main__':
